@@ -7,16 +7,24 @@ set -u
 cd $WT || exit 9
 run_tests() { (cd $WT && PYTHONPATH=$WT/src /venv/bin/python -m pytest -q -p no:cacheprovider tests --ignore=tests/test_cli.py --deselect tests/test_benchmarks.py --deselect tests/test_demos.py 2>&1 | grep -E "^(FAILED|ERROR)" | sed 's/ - .*//' | sort); }
 # the deliverable is patch.diff: start from a clean worktree and apply exactly that
-git -C $WT checkout -- . ; git -C $WT apply $OUT/patch.diff || { echo "patch does not apply"; exit 6; }
-echo "== tests with change"; run_tests > /tmp/tm_with.txt
-GOTRANX_SRC=$WT/src PYTHONPATH=$WT/src timeout 600 /venv/bin/python $OUT/demo.py > /tmp/tm_demo_with.txt 2>&1; D1=$?
+git -C $WT checkout -- . ; git -C $WT checkout -q --detach $(git -C /repo rev-parse HEAD); git -C $WT apply $OUT/patch.diff || { echo "patch does not apply"; exit 6; }
+echo "== tests with change"; run_tests > /tmp/tm_with_$ID.txt
+GOTRANX_SRC=$WT/src PYTHONPATH=$WT/src timeout 600 /venv/bin/python $OUT/demo.py > /tmp/tm_demo_with_$ID.txt 2>&1; D1=$?
 git -C $WT diff > /tmp/tm_patch_$ID.diff; git -C $WT apply -R /tmp/tm_patch_$ID.diff
-echo "== tests without change"; run_tests > /tmp/tm_without.txt
-GOTRANX_SRC=$WT/src PYTHONPATH=$WT/src timeout 600 /venv/bin/python $OUT/demo.py > /tmp/tm_demo_without.txt 2>&1; D0=$?
+echo "== tests without change"; run_tests > /tmp/tm_without_$ID.txt
+GOTRANX_SRC=$WT/src PYTHONPATH=$WT/src timeout 600 /venv/bin/python $OUT/demo.py > /tmp/tm_demo_without_$ID.txt 2>&1; D0=$?
 git -C $WT apply /tmp/tm_patch_$ID.diff
-if diff -q /tmp/tm_with.txt /tmp/tm_without.txt >/dev/null; then TESTS=same; else TESTS=DIFFERENT; diff /tmp/tm_with.txt /tmp/tm_without.txt | head; fi
-echo "demo exit with change: $D1 ; without: $D0 ; test failure sets: $TESTS ($(wc -l < /tmp/tm_with.txt) failing both)"
-[ "$D1" = "1" ] && [ "$D0" = "0" ] && [ "$TESTS" = "same" ] || { echo "MUTANT NOT CONFIRMED"; tail -5 /tmp/tm_demo_with.txt; exit 3; }
+if diff -q /tmp/tm_with_$ID.txt /tmp/tm_without_$ID.txt >/dev/null; then TESTS=same; else TESTS=DIFFERENT; diff /tmp/tm_with_$ID.txt /tmp/tm_without_$ID.txt | head; fi
+echo "demo exit with change: $D1 ; without: $D0 ; test failure sets: $TESTS ($(wc -l < /tmp/tm_with_$ID.txt) failing both)"
+[ "$D1" = "1" ] && [ "$D0" = "0" ] && [ "$TESTS" = "same" ] || { echo "MUTANT NOT CONFIRMED"; tail -5 /tmp/tm_demo_with_$ID.txt; exit 3; }
+if [ "${SCRATCH_ONLY:-0}" = "1" ]; then
+  # exploration mode: the checks read the scratch worktree (VERIF_REPO), /repo is not touched
+  for c in $CHECKS; do
+    (cd /verif && VERIF_REPO=$WT timeout 3000 ./check.py $c --tier quick > /tmp/tm_check_${ID}_$c.txt 2>&1); RC=$?
+    echo "scratch check $c quick: exit $RC"; grep -E "signature|VIOLATION" /tmp/tm_check_${ID}_$c.txt | head -6
+  done
+  exit 0
+fi
 # apply to /repo, run checks, undo
 git -C /repo status --short | grep -q . && { echo "/repo not clean"; exit 4; }
 git -C /repo apply $OUT/patch.diff || exit 5
